@@ -43,14 +43,15 @@ Cond_C03_NoMP == (IsW /\ ~Ev.mp /\ Tgt # None) => MPaths = Exp
 
 \* ---- blocks (passive visitor): C05 / C06 / C20 path parts ----
 BT == Ev.blocks
-EntityOf(c) == CHOOSE k \in 1 .. Len(BT) : \E j \in 1 .. Len(BT[k].cls) : BT[k].cls[j] = c
-Known(c) == \E k \in 1 .. Len(BT) : \E j \in 1 .. Len(BT[k].cls) : BT[k].cls[j] = c
+\* identical subtrees share blocks, so a block class may belong to several entities
+EntitiesOf(c) == {k \in 1 .. Len(BT) : \E j \in 1 .. Len(BT[k].cls) : BT[k].cls[j] = c}
+Known(c) == EntitiesOf(c) # {}
 IsProperPrefix(p, q) == Len(p) < Len(q) /\ SubSeq(q, 1, Len(p)) = p
 Cond_C05_Path == (IsW /\ Ev.passive /\ Ev.target = "match" /\ ~Ev.mp) =>
     \A i \in 1 .. Len(Ev.loads) :
        LET c == Ev.loads[i] IN
-       /\ Known(c)
-       /\ LET e == BT[EntityOf(c)] IN
+       \E k \in EntitiesOf(c) :
+          LET e == BT[k] IN
           \/ IsProperPrefix(e.path, Ev.segs)                       \* a directory on the way (any of its shards)
           \/ (e.path = Ev.segs /\ e.cls[1] = c /\ Tgt # None)      \* the target's own root block, nothing below it
 Cond_C06_PathPreload == (IsW /\ Ev.passive /\ Ev.target = "preload" /\ ~Ev.mp /\ Tgt # None /\ Ev.e = "nil") =>
@@ -58,10 +59,12 @@ Cond_C06_PathPreload == (IsW /\ Ev.passive /\ Ev.target = "preload" /\ ~Ev.mp /\
     \A k \in ks : \A j \in 1 .. Len(BT[k].cls) : (Len(Ev.segs) = 0 /\ j = 1) \/ \E i \in 1 .. Len(Ev.loads) : Ev.loads[i] = BT[k].cls[j]
 \* blocks along the path are first requested in root-to-target order
 FirstIdx(c) == CHOOSE i \in 1 .. Len(Ev.loads) : Ev.loads[i] = c /\ \A j \in 1 .. (i - 1) : Ev.loads[j] # c
+MinDepth(c) == CHOOSE d \in {Len(BT[k].path) : k \in EntitiesOf(c)} : \A k \in EntitiesOf(c) : d <= Len(BT[k].path)
+MaxDepth(c) == CHOOSE d \in {Len(BT[k].path) : k \in EntitiesOf(c)} : \A k \in EntitiesOf(c) : d >= Len(BT[k].path)
 Cond_C20_PathOrder == (IsW /\ Ev.passive /\ Ev.target = "match" /\ ~Ev.mp) =>
     \A i, j \in 1 .. Len(Ev.loads) :
        (Known(Ev.loads[i]) /\ Known(Ev.loads[j]) /\ FirstIdx(Ev.loads[i]) < FirstIdx(Ev.loads[j])) =>
-          Len(BT[EntityOf(Ev.loads[i])].path) <= Len(BT[EntityOf(Ev.loads[j])].path)
+          MinDepth(Ev.loads[i]) <= MaxDepth(Ev.loads[j])
 
 Chk(nm, c) == c \/ PrintT(<<"VIOL", nm, l - 1>>)
 Inv_NoPanic == Chk("Inv_NoPanic", Cond_NoPanic)
